@@ -7,6 +7,7 @@ import os
 import random
 import shutil
 import struct
+import weakref
 
 from pbt.core import use_repo, VERIF_DIR
 from pbt import world as W
@@ -428,14 +429,14 @@ def diff(obs, model, parts=('utxo', 'history', 'chain', 'raw')):
 # traceback the handle - alive, and the next case re-creating the same directory would then fail with
 # "lock ...: already held by process", i.e. flakily.  Every LevelDB the harness or electrumx opens is
 # recorded; fresh_dir closes what is still open underneath the directory it re-creates.
-_OPEN_HANDLES = []
+_OPEN_HANDLES = []          # (absolute path, weak reference to the storage object): lifetimes unchanged
 LEAKED_HANDLES_CLOSED = [0]
 _real_leveldb_open = storage_mod.LevelDB.open
 
 
 def _tracking_open(self, name, create):
     _real_leveldb_open(self, name, create)
-    _OPEN_HANDLES.append((os.path.abspath(name), self.db))
+    _OPEN_HANDLES.append((os.path.abspath(name), weakref.ref(self)))
 
 
 storage_mod.LevelDB.open = _tracking_open
@@ -443,14 +444,15 @@ storage_mod.LevelDB.open = _tracking_open
 
 def close_leaked_handles(path):
     keep = []
-    for p, db in _OPEN_HANDLES:
-        if db.closed:
+    for p, ref in _OPEN_HANDLES:
+        store = ref()
+        if store is None or store.db is None or store.db.closed:
             continue
         if p == path or p.startswith(path + os.sep):
-            db.close()
+            store.db.close()
             LEAKED_HANDLES_CLOSED[0] += 1
         else:
-            keep.append((p, db))
+            keep.append((p, ref))
     _OPEN_HANDLES[:] = keep
 
 
